@@ -65,7 +65,9 @@ def replay(chk, exe, cfgname, n, nrec, nbytes):
                 u, a, v, to = g.edges[i]
                 want = [k + 1 for k, x in enumerate(to["pc"]) if x == "want" and to["lock"] != 0]
                 steps.append(dict(a=a["op"], t=a["args"][0], want=want))
-            cases.append(dict(sink=sink, threads=n, nrec=nrec, nbytes=nbytes, steps=steps))
+            # the severity of a record is (3 t + 2 r + seed) mod 6: two seeds give every thread a fatal record once
+            for seed in (0, 3):
+                cases.append(dict(sink=sink, threads=n, nrec=nrec, nbytes=nbytes, steps=steps, seed=seed))
     obs = vc.run_cases(exe, cases, chk.out, "sched_" + cfgname, per_case_timeout=60, shards=8)
     unreal = [0]
     for c, o in zip(cases, obs):
@@ -87,7 +89,7 @@ def replay(chk, exe, cfgname, n, nrec, nbytes):
         if e or o["concurrent"]:
             chk.diverge("Chunk", "interleaved", wit, "%s sink, behaviour %s...: %s" % (c["sink"], [(s["a"], s["t"]) for s in c["steps"]][:12], e or "concurrent entry detected"))
     chk.replayed += len(cases)
-    chk.notes.append("LogMT/%s: %d behaviours (x 2 sinks) cover %d of %d edges; %d replays ended early because the library handed the lock to a different waiting thread than the behaviour (legal nondeterminism)" % (
+    chk.notes.append("LogMT/%s: %d behaviours (x 2 sinks x 2 severity assignments) cover %d of %d edges; %d replays ended early because the library handed the lock to a different waiting thread than the behaviour (legal nondeterminism)" % (
         cfgname, len(paths), ncov, len(g.edges), unreal[0]))
     if paths:
         chk.sample(dict(kind="spec->code behaviour (controller-scheduled)", threads=n, steps=[(g.edges[i][1]["op"], g.edges[i][1]["args"][0]) for i in paths[len(paths) // 2]][:24]))
